@@ -18,5 +18,8 @@ for pid in ids:
     st = common.axioms_audit.statements
     miss = [t for t in thms if t not in st]
     assert not miss, ('no statement printed for', miss[:5])
-    json.dump({t: hashlib.sha1(st[t].encode()).hexdigest() for t in thms}, open(common.pins_file(pid), 'w'), indent=1, sort_keys=True)
-    print(pid, len(thms), 'statements pinned')
+    d = {t: hashlib.sha1(st[t].encode()).hexdigest() for t in thms}
+    assert common.axioms_audit.defhashes, 'no definition hashes printed'
+    d['__defs__'] = dict(common.axioms_audit.defhashes)
+    json.dump(d, open(common.pins_file(pid), 'w'), indent=1, sort_keys=True)
+    print(pid, len(thms), 'statements pinned,', len(d['__defs__']), 'definitions')
